@@ -4,16 +4,21 @@ Tie B (hand model + correspondence): coq/C19/Model.v is an executable Gallina mo
 src/scippneutron/chopper/filtering.py over an abstract arithmetic carrier; coq/C19/Spec.v states the
 property without reference to the code; coq/C19/Proofs*.v prove model = spec for ALL series; this file
 generates series, runs the real implementation (tools/harness/c19_impl.py) and lets Coq compare the
-observations with the model run on the same binary64 inputs (coq-run/C19/Corr.v).
+observations with the model run on the same binary64 inputs (coq-run/C19/Corr.v); series with float32
+coordinates / data are compared with the binary32 instances (Flocq, coq/C19/Carrier32.v, coq-run/C19/Corr32.v).
+Call histories (the SAME DataArray / plateau array passed repeatedly, updated in place between the calls,
+interleaved with calls on other objects) are flattened: every call is compared with the model evaluated on the
+CURRENT content of its argument, and with the call on a fresh deep copy.
 """
 import math
 import random
+import struct
 from fractions import Fraction
 
 ID = 'C19'
 LEVEL = 'proof'
 TRANSLATE = None
-RUN_FILES = ['Properties.v', 'Corr.v']
+RUN_FILES = ['Properties.v', 'Corr.v', 'Corr32.v']
 COQ_TIMEOUT = 600
 TRUSTED = [
     'coq/C19/Model.v: hand-written model of find_plateaus/_derive/_check_total_tolerance/collapse_plateaus/'
@@ -22,6 +27,10 @@ TRUSTED = [
     'boolean-mask indexing, bins.mean/min/max, sc.round (ties to even), sc.reciprocal, element-wise IEEE binary64 '
     '+ - / abs > <, int64 difference converted to double for the division',
     'Coq primitive floats (PrimFloat: IEEE-754 binary64 add/sub/mul/div/compare/next_up, hexadecimal literals, Prim2SF)',
+    'float32: Flocq IEEE754.BinarySingleNaN at precision 24 / emax 128 (Bminus, Bdiv, Bleb, Bsucc, binary_normalize) as the '
+    'binary32 arithmetic; modelled scipp dtype rules: float32 op float32 -> float32, float32 op float64 -> float64 (the '
+    'float32 difference is formed first), float32 / int64 -> float32 (the integer rounded to nearest), comparison of a '
+    'float32 with the float64 tolerance exact',
     'tools/harness/c19_impl.py + props/C19.py (generation, exact serialisation of binary64 as hex literals)',
 ]
 ASSUMPTIONS = [
@@ -33,12 +42,18 @@ ASSUMPTIONS = [
     'in_phase_iff is proved over exact rationals; the binary64 decision is compared bit-exactly by the correspondence',
     'collapse interval theorem: proved for any coordinate order that is total on the occurring coordinates with '
     'next(x) above x; instantiated for int64/datetime64 (next = +1), exact rationals, and finite binary64 '
-    '(next = nextafter(+inf), via Flocq: uses the FloatAxioms specifications of the primitive float operations)',
+    '(next = nextafter(+inf), via Flocq: uses the FloatAxioms specifications of the primitive float operations) and '
+    'finite binary32 (next = Flocq Bsucc at precision 24 = the least binary32 value above)',
+    'float32 data: drift-guard decision compared outside a relative band of 5e-5, bin means to (n+2)*2^-24 of the mean '
+    'magnitude (any binary32 summation order)',
+    'call histories: in-place updates keep length, dtype and ascending order of the coordinate; the content of the '
+    'argument at each call is read back from the object just before the call',
     'in-phase: n = 0 is an admissible integer on both sides, as in the design statement: |f| < rtol*|ref| is kept '
     '(f ~ 0*ref) and |f| > |ref|/rtol is kept (ref ~ 0*f); f = 0 is kept through the multiple side only',
 ]
 
 HARNESS = 'c19_impl.py'
+FLOATS = ('float', 'float32')
 
 
 # --------------------------------------------------------------------------- helpers
@@ -52,21 +67,59 @@ def cz(n):
     return f'({int(n)})%Z'
 
 
+def r32(x):
+    """round a double to the nearest binary32 value (ties to even)"""
+    try:
+        return struct.unpack('f', struct.pack('f', x))[0]
+    except OverflowError:
+        return math.copysign(math.inf, x)
+
+
+def c32(x):
+    """Coq binary32 value (Flocq) of a double that is representable in binary32: mk32 mantissa exponent"""
+    x = float(x)
+    if x == 0:
+        return '(mk32 0 0)'
+    m, e = math.frexp(x)
+    mm = int(m * 2 ** 24)
+    assert mm == m * 2 ** 24, x
+    return f'(mk32 ({mm})%Z ({e - 24})%Z)'
+
+
 def loguniform(rng, lo, hi):
     return math.exp(rng.uniform(math.log(lo), math.log(hi)))
 
 
+def fdiv(a, b):
+    if b == 0.0:
+        if a == 0 or a != a:
+            return math.nan
+        return math.copysign(math.inf, a) * math.copysign(1.0, b)
+    return a / b
+
+
 def slopes_of(case):
-    """the slopes exactly as the implementation computes them (IEEE double)"""
+    """the slopes exactly as the implementation computes them: IEEE binary64, or binary32 where scipp keeps float32
+    (a binary32 operation is the binary64 one rounded once more: 53 >= 2*24+2)"""
     xs, ys = case['xv'], case['yv']
+    y32 = case.get('ydtype') == 'float32'
+    coord = case['coord']
+    all32 = y32 and coord != 'float'               # float32 data over float32 / int64 / datetime64 coordinates
     out = []
     for i in range(len(xs) - 1):
-        dx = float(xs[i + 1] - xs[i])          # int kinds: exact integer difference, then to double
-        dy = ys[i + 1] - ys[i]
-        if dx == 0.0:
-            out.append(math.nan if dy == 0 else math.copysign(math.inf, dy))
+        if coord == 'float':
+            dx = xs[i + 1] - xs[i]
+        elif coord == 'float32':
+            dx = r32(xs[i + 1] - xs[i])
         else:
-            out.append(dy / dx)
+            dx = float(xs[i + 1] - xs[i])          # int kinds: exact integer difference, then to double / float
+            if y32:
+                dx = r32(dx)
+        dy = ys[i + 1] - ys[i]
+        if y32:
+            dy = r32(dy)
+        s = fdiv(dy, dx)
+        out.append(r32(s) if all32 and math.isfinite(s) else s)
     return out
 
 
@@ -82,19 +135,22 @@ def exact_flags(case):
 
 
 # --------------------------------------------------------------------------- plateau generator
-def gen_plateau(rng, tier):
-    r = rng.random()
-    if r < 0.10:
-        n = rng.randint(2, 4)
-    elif r < (0.90 if tier == 'quick' else 0.75):
-        n = rng.randint(5, 60)
-    else:
-        n = rng.randint(61, 500)
-    coord = rng.choice(['float'] * 6 + ['int'] * 2 + ['datetime'] * 2)
+def gen_series(rng, tier, n=None, coord=None, ydtype=None):
+    """one series: coordinates (non-uniform, ascending), piecewise-constant levels + noise, steps near the tolerance"""
+    if n is None:
+        r = rng.random()
+        if r < 0.10:
+            n = rng.randint(2, 4)
+        elif r < (0.90 if tier == 'quick' else 0.75):
+            n = rng.randint(5, 60)
+        else:
+            n = rng.randint(61, 500)
+    if coord is None:
+        coord = rng.choice(['float'] * 5 + ['float32'] * 2 + ['int'] * 2 + ['datetime'] * 2)
     nice = rng.random() < 0.3
-    ydtype = 'float64'
+    yd = 'float64'
     # coordinates (non-uniform, ascending)
-    if coord == 'float':
+    if coord in FLOATS:
         if nice:
             x = [rng.randint(-64, 64) / 8.0]
             for _ in range(n - 1):
@@ -103,24 +159,37 @@ def gen_plateau(rng, tier):
             x = [rng.uniform(-50, 50)]
             for _ in range(n - 1):
                 x.append(x[-1] + loguniform(rng, 0.05, 3.0))
+        if coord == 'float32':
+            x = [r32(v) for v in x]
         if rng.random() < 0.05 and n > 3:        # ascending, not strictly
             for _ in range(rng.randint(1, 2)):
                 k = rng.randrange(1, n)
                 x[k] = x[k - 1]
         A = rng.choice([0.25, 0.5, 1.0, 2.0, 3.0]) if nice else loguniform(rng, 1e-2, 10)
+        if rng.random() < (0.6 if coord == 'float32' else 0.12):
+            yd = 'float32'
     elif coord == 'int':
         x = [rng.choice([rng.randint(-1000, 1000), 2 ** 40 + rng.randint(0, 10 ** 6)])]
         for _ in range(n - 1):
             x.append(x[-1] + rng.randint(1, 9))
         A = rng.choice([0.25, 0.5, 1.0, 2.0]) if nice else loguniform(rng, 1e-2, 10)
         if nice and rng.random() < 0.4:
-            ydtype = 'int64'
+            yd = 'int64'
             A = float(rng.choice([1, 2, 3]))
+        elif rng.random() < 0.15:
+            yd = 'float32'
     else:
         x = [1_700_000_000_000_000_000 + rng.randint(0, 10 ** 15)]
         for _ in range(n - 1):
             x.append(x[-1] + (rng.randint(1, 16) * 2 ** 27 if nice else rng.randint(1, 4_000_000_000)))
         A = rng.choice([0.25, 0.5, 1.0, 2.0]) * 2.0 ** -30 if nice else loguniform(rng, 1e-2, 10) * 1e-9
+        if rng.random() < 0.15:
+            yd = 'float32'
+    if ydtype is not None:
+        if ydtype == 'int64' and yd != 'int64':
+            A = float(rng.choice([1, 2, 3]))
+        yd = ydtype
+    ydtype = yd
     dxs = [float(x[i + 1] - x[i]) for i in range(n - 1)]
     pos = sorted(d for d in dxs if d > 0) or [1.0]
     med = pos[len(pos) // 2]
@@ -165,7 +234,15 @@ def gen_plateau(rng, tier):
             v = float(round(v))
         y.append(v)
         seg_left -= 1
-    case = {'kind': 'plateau', 'coord': coord, 'ydtype': ydtype, 'xv': x, 'yv': y, 'nice': nice}
+    if ydtype == 'float32':
+        y = [r32(v) for v in y]
+    return {'kind': 'plateau', 'coord': coord, 'ydtype': ydtype, 'xv': x, 'yv': y, 'nice': nice, 'A': A}
+
+
+def pick_params(rng, case, A=None):
+    """tolerance (nominal / exactly at a slope / one ulp from it) and min_n_points for the CURRENT content"""
+    A = case['A'] if A is None else A
+    n = len(case['xv'])
     sl = slopes_of(case)
     cands = [abs(s) for s in sl if 0.5 * A <= abs(s) <= 1.5 * A and math.isfinite(s)]
     m = rng.random()
@@ -195,13 +272,28 @@ def gen_plateau(rng, tier):
     return case
 
 
+def gen_plateau(rng, tier):
+    return pick_params(rng, gen_series(rng, tier))
+
+
+def hx(coord, v):
+    return float(v).hex() if coord in FLOATS else int(v)
+
+
+def series_payload(case):
+    return {'coord': case['coord'], 'ydtype': case['ydtype'], 'x': [hx(case['coord'], v) for v in case['xv']],
+            'y': [float(v).hex() for v in case['yv']]}
+
+
 def payload_of(case):
+    if case['kind'] == 'history':
+        return case['payload']
     if case['kind'] == 'phase':
-        return {'kind': 'phase', 'f': [float(v).hex() for v in case['fv']], 'ref': float(case['refv']).hex(),
-                'rtol': float(case['rtolv']).hex()}
-    return {'kind': 'plateau', 'coord': case['coord'], 'ydtype': case['ydtype'],
-            'x': [float(v).hex() for v in case['xv']] if case['coord'] == 'float' else [int(v) for v in case['xv']],
-            'y': [float(v).hex() for v in case['yv']], 'atol': float(case['atolv']).hex(), 'min_n': case['min_n']}
+        return {'kind': 'phase', 'f': [float(v).hex() for v in case['fv']], 'fdtype': case.get('fdtype', 'float64'),
+                'ref': float(case['refv']).hex(), 'rtol': float(case['rtolv']).hex()}
+    d = {'kind': 'plateau', 'atol': float(case['atolv']).hex(), 'min_n': case['min_n']}
+    d.update(series_payload(case))
+    return d
 
 
 # --------------------------------------------------------------------------- in-phase generator
@@ -243,7 +335,7 @@ def phase_float(f, ref, rtol):
     return near(q) or near(q2)
 
 
-def gen_phase(rng):
+def gen_phase(rng, n=None, fdtype=None):
     mode = rng.random()
     if mode < 0.25:      # exact dyadic arithmetic: elements exactly at the relative tolerance
         ref = rng.choice([1.0, 2.0, -2.0, 0.5])
@@ -251,7 +343,10 @@ def gen_phase(rng):
     else:
         ref = rng.choice([14.0, -14.0, 0.1, 70.0 / 3.0, 16.666666666666668, rng.uniform(0.5, 100) * rng.choice([-1, 1])])
         rtol = rng.choice([1e-6, 1e-3, 1e-9, 0.05, 0.01, 0.5, 2.0 ** -10])
-    n = rng.randint(1, 60)
+    if n is None:
+        n = rng.randint(1, 60)
+    if fdtype is None:
+        fdtype = rng.choice(['float64'] * 15 + ['float32'] * 3 + ['int64'] * 2)
     f = []
     for _ in range(n):
         k = rng.random()
@@ -270,7 +365,187 @@ def gen_phase(rng):
             f.append(ref * (abs(nn) + 0.5))       # ties of the rounding
         else:
             f.append(rng.uniform(-200, 200))
-    return {'kind': 'phase', 'fv': f, 'refv': ref, 'rtolv': rtol}
+    if fdtype == 'float32':
+        f = [r32(v) for v in f]
+    elif fdtype == 'int64':
+        f = [float(round(v)) + 0.0 for v in f]    # (+0.0: an int64 has no negative zero)
+        f = [0.0 if v == 0 else v for v in f]
+    return {'kind': 'phase', 'fv': f, 'fdtype': fdtype, 'refv': ref, 'rtolv': rtol}
+
+
+# --------------------------------------------------------------------------- call histories
+def gen_history(rng):
+    """a call history over 1..3 long-lived objects (plateau series, sometimes a frequency array): the same object is
+    passed again and again, its data / coordinate are updated in place between the calls, calls on the other objects
+    are interleaved; the plateau array returned by find_plateaus is itself updated in place and collapsed again"""
+    nobj = rng.choice([1, 2, 2, 3])
+    objs, state = [], []
+    for k in range(nobj):
+        if rng.random() < 0.2:
+            ph = gen_phase(rng, n=rng.randint(2, 16))
+            objs.append({'kind': 'phase', 'f': [float(v).hex() for v in ph['fv']], 'fdtype': ph['fdtype']})
+            state.append({'kind': 'phase', 'fv': list(ph['fv']), 'fdtype': ph['fdtype'], 'ref': ph['refv'], 'rtol': ph['rtolv'],
+                          'dirty': True})
+        else:
+            s = gen_series(rng, 'quick', n=rng.randint(3, 28))
+            d = series_payload(s)
+            objs.append(d)
+            s.update({'dirty': True, 'has_p': False, 'pdirty': False})
+            state.append(s)
+    steps = []
+    prev = rng.randrange(nobj)
+
+    def find_step(k):
+        s = state[k]
+        pick_params(rng, s)
+        steps.append({'op': 'find', 'obj': k, 'atol': float(s['atolv']).hex(), 'min_n': s['min_n'], 'atol_how': s['atol_how']})
+        s['dirty'] = False
+        s['has_p'] = True
+        s['pdirty'] = False
+
+    def phase_step(k):
+        s = state[k]
+        if rng.random() < 0.3:
+            other = gen_phase(rng, n=1)
+            s['ref'], s['rtol'] = other['refv'], other['rtolv']
+        steps.append({'op': 'phase', 'obj': k, 'ref': float(s['ref']).hex(), 'rtol': float(s['rtol']).hex()})
+        s['dirty'] = False
+
+    for _ in range(rng.randint(4, 9)):
+        k = prev if rng.random() < 0.55 else rng.randrange(nobj)
+        prev = k
+        s = state[k]
+        if s['kind'] == 'phase':
+            if s['dirty'] or rng.random() < 0.5:
+                phase_step(k)
+                continue
+            n = len(s['fv'])
+            new = gen_phase(rng, n=n, fdtype=s['fdtype'])['fv']
+            if rng.random() < 0.5:
+                lo = rng.randrange(n)
+                hi = rng.randint(lo + 1, n)
+                s['fv'][lo:hi] = new[lo:hi]
+                steps.append({'op': 'set', 'obj': k, 'how': rng.choice(['values', 'data_values']), 'lo': lo,
+                              'y': [float(v).hex() for v in new[lo:hi]]})
+            else:
+                s['fv'] = list(new)
+                steps.append({'op': 'set', 'obj': k, 'how': 'data', 'ydtype': s['fdtype'], 'y': [float(v).hex() for v in new]})
+            s['dirty'] = True
+            continue
+        n = len(s['xv'])
+        coord = s['coord']
+        u = rng.random()
+        if not s['has_p'] or u < 0.30:
+            find_step(k)
+        elif u < 0.68:                                   # update the series in place
+            new = gen_series(rng, 'quick', n=n, coord=coord, ydtype=s['ydtype'])
+            how = rng.choice(['values', 'values', 'data_values', 'data', 'coord', 'coord_values'])
+            if how in ('values', 'data_values'):
+                lo = rng.randrange(n)
+                hi = rng.randint(lo + 1, min(n, lo + 8))
+                if rng.random() < 0.5:                   # a flat piece at another level
+                    lvl = new['yv'][lo]
+                    vals = [lvl] * (hi - lo)
+                else:
+                    vals = new['yv'][lo:hi]
+                s['yv'][lo:hi] = vals
+                steps.append({'op': 'set', 'obj': k, 'how': how, 'lo': lo, 'y': [float(v).hex() for v in vals]})
+            elif how == 'data':
+                s['yv'] = list(new['yv'])
+                s['A'] = new['A']
+                steps.append({'op': 'set', 'obj': k, 'how': 'data', 'ydtype': s['ydtype'],
+                              'y': [float(v).hex() for v in new['yv']]})
+            elif how == 'coord':
+                s['xv'] = list(new['xv'])
+                steps.append({'op': 'set', 'obj': k, 'how': 'coord', 'x': [hx(coord, v) for v in new['xv']]})
+            else:                                        # stretch the tail: still ascending
+                lo = rng.randrange(1, n) if n > 1 else 0
+                if coord in FLOATS:
+                    d = rng.choice([0.125, 0.5, 2.0, rng.uniform(0.01, 5)])
+                    tail = [v + d for v in s['xv'][lo:]]
+                    if coord == 'float32':
+                        tail = [r32(v) for v in tail]
+                elif coord == 'int':
+                    d = rng.choice([1, 2, 7])
+                    tail = [v + d for v in s['xv'][lo:]]
+                else:
+                    d = rng.choice([1, 2 ** 27, rng.randint(1, 4_000_000_000)])
+                    tail = [v + d for v in s['xv'][lo:]]
+                s['xv'][lo:] = tail
+                steps.append({'op': 'set', 'obj': k, 'how': 'coord_values', 'lo': lo, 'x': [hx(coord, v) for v in tail]})
+            s['dirty'] = True
+        elif u < 0.82:                                   # update the plateau array in place
+            how = rng.choice(['scale_data', 'shift_coord', 'event_value', 'event_coord', 'event_coord'])
+            st = {'op': 'pset', 'obj': k, 'how': how}
+            if how == 'shift_coord':
+                if coord in FLOATS:
+                    c = rng.choice([0.5, -3.0, rng.uniform(-5, 5), -s['xv'][-1]])
+                    st['c'] = float(r32(c) if coord == 'float32' else c).hex()
+                else:
+                    st['c'] = rng.choice([1, -5, rng.randint(-10 ** 6, 10 ** 6)])
+            elif how == 'event_value':
+                v = rng.choice(s['yv']) + rng.choice([0.0, 1.0, -2.5, rng.uniform(-3, 3)])
+                if s['ydtype'] == 'int64':
+                    v = float(round(v))
+                elif s['ydtype'] == 'float32':
+                    v = r32(v)
+                st.update({'bin': rng.randrange(64), 'j': rng.randrange(64), 'v': float(v).hex()})
+            elif how == 'event_coord':                   # anywhere: a bin need not stay sorted for collapse
+                a, b = s['xv'][0], s['xv'][-1]
+                if coord in FLOATS:
+                    c = rng.choice([a - 1.0, b + 1.0, rng.uniform(a, b), rng.uniform(a, b), -b])
+                    c = float(r32(c) if coord == 'float32' else c).hex()
+                else:
+                    c = rng.choice([a - 1, b + 1, rng.randint(a, b), rng.randint(a, b)])
+                st.update({'bin': rng.randrange(64), 'j': rng.randrange(64), 'c': c})
+            steps.append(st)
+            s['pdirty'] = True
+        else:
+            steps.append({'op': 'collapse', 'obj': k})
+            s['pdirty'] = False
+    for k, s in enumerate(state):                        # every update is followed by a call
+        if s['kind'] == 'phase':
+            if s['dirty']:
+                phase_step(k)
+        else:
+            if s['pdirty']:
+                steps.append({'op': 'collapse', 'obj': k})
+                s['pdirty'] = False
+            if s['dirty']:
+                find_step(k)
+    return {'kind': 'history', 'payload': {'kind': 'history', 'objects': objs, 'steps': steps},
+            'expected_content': None}
+
+
+def unhx(coord, v):
+    return float.fromhex(v) if coord in FLOATS else int(v)
+
+
+def flatten_history(payload, hobs, hist_index=None):
+    """every call of a history as an independent case on the CURRENT content of its argument (read back from the
+    object just before the call): list of (flat case, observation)"""
+    flat = []
+    objs = payload['objects']
+    for si, (st, o) in enumerate(zip(payload['steps'], hobs['steps'])):
+        if o is None or o.get('skipped'):
+            continue
+        ob = objs[st['obj']]
+        meta = {'history': hist_index, 'step': si, 'obj': st['obj']}
+        if st['op'] == 'find':
+            c = {'kind': 'plateau', 'coord': ob['coord'], 'ydtype': o['ydtype_now'],
+                 'xv': [unhx(ob['coord'], v) for v in o['x']], 'yv': [float.fromhex(v) for v in o['y']],
+                 'atolv': float.fromhex(st['atol']), 'min_n': st['min_n'], 'atol_how': st.get('atol_how', '?'),
+                 'nice': None, 'hist': meta}
+            flat.append((c, o))
+        elif st['op'] == 'collapse':
+            c = {'kind': 'collapse', 'coord': ob['coord'], 'ydtype': o['ydtype_now'],
+                 'bins': [[(unhx(ob['coord'], p[0]), float.fromhex(p[1])) for p in b] for b in o['bins']], 'hist': meta}
+            flat.append((c, o))
+        elif st['op'] == 'phase':
+            c = {'kind': 'phase', 'fv': [float.fromhex(v) for v in o['f']], 'fdtype': o['fdtype_now'],
+                 'refv': float.fromhex(st['ref']), 'rtolv': float.fromhex(st['rtol']), 'hist': meta}
+            flat.append((c, o))
+    return flat
 
 
 # --------------------------------------------------------------------------- the property, evaluated in Python
@@ -288,72 +563,89 @@ def spec_runs(case):
     return [r for r in runs if r[1] - r[0] + 1 >= case['min_n']]
 
 
+def collapse_violations(coord, ydtype, bins, col):
+    """collapsing gives each plateau its mean and a half-open coordinate interval that contains all of its points;
+    bins = [[(x, y), ...], ...] (current content), col = the observation [[mean, low, high], ...]"""
+    if isinstance(col, dict):
+        return [f'collapse_plateaus raises {col["error"]}']
+    if len(col) != len(bins):
+        return ['collapse: wrong number of plateaus']
+    for k, (b, (m, lo, hi)) in enumerate(zip(bins, col)):
+        seg_x = [p[0] for p in b]
+        seg_y = [p[1] for p in b]
+        lo_v, hi_v = unhx(coord, lo), unhx(coord, hi)
+        if not all(lo_v <= v < hi_v for v in seg_x):
+            return [f'collapse: interval [{lo_v!r}, {hi_v!r}) does not contain all points {seg_x[:6]} of plateau {k} '
+                    f'(coordinate dtype {coord})']
+        em = sum(Fraction(v) for v in seg_y) / len(b)
+        mag = sum(abs(Fraction(v)) for v in seg_y) / len(b)
+        tol = Fraction(len(b) + 2, 2 ** 24) if ydtype == 'float32' else Fraction(1, 10 ** 12)
+        if abs(Fraction(float.fromhex(m)) - em) > tol * mag:
+            return [f'collapse: mean {float.fromhex(m)!r} of plateau {k} differs from {float(em)!r}']
+    return []
+
+
 def property_violations(case, obs):
     """compare one observation with the property text (used by search / replay)"""
     bad = []
+    if obs.get('fresh_same') is False:
+        bad.append(f'the call on the long-lived object (history step {case.get("hist")}) answers differently from the call on '
+                   f'a fresh deep copy with the same content')
+    if obs.get('input_unchanged') is False:
+        bad.append('the call modified its argument')
     if case['kind'] == 'phase':
         if 'error' in obs:
-            return [f'raises {obs["error"]}']
+            return [f'raises {obs["error"]}'] + bad
         want = [i for i, f in enumerate(case['fv']) if phase_float(f, case['refv'], case['rtolv'])]
         sure = [i for i, f in enumerate(case['fv'])
                 if phase_float(f, case['refv'], case['rtolv']) == phase_exact(f, case['refv'], case['rtolv'])]
         got = [k[0] for k in obs['kept']]
         for i in sure:
             if (i in got) != (i in want):
-                bad.append(f'element {i} (f={case["fv"][i]!r}, ref={case["refv"]!r}, rtol={case["rtolv"]!r}) '
+                bad.insert(0, f'element {i} (f={case["fv"][i]!r}, ref={case["refv"]!r}, rtol={case["rtolv"]!r}) '
                            f'{"kept" if i in got else "dropped"} but is {"" if i in want else "not "}within rtol of an '
                            'integer multiple/divisor')
                 break
         for i, v in obs['kept']:
-            if float.fromhex(v) != case['fv'][i] or math.copysign(1, float.fromhex(v)) != math.copysign(1, case['fv'][i]):
+            if i >= len(case['fv']) or float.fromhex(v) != case['fv'][i] or \
+                    math.copysign(1, float.fromhex(v)) != math.copysign(1, case['fv'][i]):
                 bad.append(f'kept element {i} changed')
                 break
         if got != sorted(got):
             bad.append('kept elements out of order')
         return bad
+    if case['kind'] == 'collapse':
+        return collapse_violations(case['coord'], case['ydtype'], case['bins'], obs['collapsed']) + bad
     if 'error' in obs:
         if obs['error'] != 'RuntimeError':
-            bad.append(f'raises {obs["error"]}: {obs.get("msg")}')
+            bad.insert(0, f'raises {obs["error"]}: {obs.get("msg")}')
         return bad            # "whenever plateau finding returns"
     want = spec_runs(case)
     xs, ys = case['xv'], case['yv']
+    coord = case['coord']
 
     def pt(i):
-        return [float(xs[i]).hex() if case['coord'] == 'float' else int(xs[i]), float(ys[i]).hex()]
+        return [hx(coord, xs[i]), float(ys[i]).hex()]
     exp = [[pt(i) for i in range(a, b + 1)] for a, b in want]
     if obs['bins'] != exp:
         got_sizes = [len(b) for b in obs['bins']]
-        bad.append(f'bins are not the maximal within-tolerance runs: expected runs {want[:12]} '
+        bad.insert(0, f'bins are not the maximal within-tolerance runs of the current content: expected runs {want[:12]} '
                    f'(sizes {[b - a + 1 for a, b in want][:12]}), got sizes {got_sizes[:12]}')
         return bad
-    col = obs.get('collapsed')
-    if isinstance(col, dict):
-        bad.append(f'collapse_plateaus raises {col["error"]}')
-        return bad
-    if len(col) != len(want):
-        bad.append('collapse: wrong number of plateaus')
-        return bad
-    for (a, b), (m, lo, hi) in zip(want, col):
-        seg_x = xs[a:b + 1]
-        lo_v = float.fromhex(lo) if case['coord'] == 'float' else lo
-        hi_v = float.fromhex(hi) if case['coord'] == 'float' else hi
-        if not all(lo_v <= v < hi_v for v in seg_x):
-            bad.append(f'collapse: interval [{lo_v!r}, {hi_v!r}) does not contain all points {seg_x[:6]} of plateau ({a},{b})')
-            break
-        em = sum(Fraction(v) for v in ys[a:b + 1]) / (b - a + 1)
-        mag = sum(abs(Fraction(v)) for v in ys[a:b + 1]) / (b - a + 1)
-        if abs(Fraction(float.fromhex(m)) - em) > Fraction(1, 10 ** 12) * mag:
-            bad.append(f'collapse: mean {float.fromhex(m)!r} of plateau ({a},{b}) differs from {float(em)!r}')
-            break
-    return bad
+    bins = [[(xs[i], ys[i]) for i in range(a, b + 1)] for a, b in want]
+    return collapse_violations(coord, case['ydtype'], bins, obs.get('collapsed')) + bad
 
 
 # --------------------------------------------------------------------------- Coq terms
+def cx_term(coord):
+    return cf if coord == 'float' else c32 if coord == 'float32' else cz
+
+
 def obs_term(case, obs):
-    cx = cf if case['coord'] == 'float' else cz
+    cx = cx_term(case['coord'])
 
     def cxo(v):
-        return cf(float.fromhex(v)) if case['coord'] == 'float' else cz(v)
+        return cx(unhx(case['coord'], v))
     if 'error' in obs:
         return f'(ObsErr "{obs["error"]}")'
     bins = '[' + ';'.join('[' + ';'.join(f'({cxo(p[0])},{cf(float.fromhex(p[1]))})' for p in b) + ']'
@@ -366,26 +658,45 @@ def obs_term(case, obs):
 
 
 def case_term(case, obs):
-    qs = 'true' if case['qsame'] else 'false'
+    """(group, Coq term): group '64' is evaluated with Corr.check, group '32' (float32 involved) with Corr32.check32"""
     if case['kind'] == 'phase':
+        qs = 'true' if case['qsame'] else 'false'
         kept = '[' + ';'.join(f'({cz(i)},{cf(float.fromhex(v))})' for i, v in obs['kept']) + ']'
         fs = '[' + ';'.join(cf(v) for v in case['fv']) + ']'
-        return f'CaseP {fs} {cf(case["refv"])} {cf(case["rtolv"])} {qs} {kept}'
+        return '64', f'CaseP {fs} {cf(case["refv"])} {cf(case["rtolv"])} {qs} {kept}'
+    coord = case['coord']
+    v32 = case['ydtype'] == 'float32'
+    b32 = 'true' if v32 else 'false'
+    cx = cx_term(coord)
+    if case['kind'] == 'collapse':
+        bins = '[' + ';'.join('[' + ';'.join(f'({cx(p[0])},{cf(p[1])})' for p in b) + ']' for b in case['bins']) + ']'
+        coll = '[' + ';'.join(f'({cf(float.fromhex(m))},{cx(unhx(coord, lo))},{cx(unhx(coord, hi))})'
+                              for m, lo, hi in obs['collapsed']) + ']'
+        if coord == 'float32':
+            return '32', f'CaseCol32 {b32} {bins} {coll}'
+        return '64', f'{"CaseColF" if coord == "float" else "CaseColZ"} {b32} {bins} {coll}'
+    qs = 'true' if case['qsame'] else 'false'
     ot = obs_term(case, obs)
     ys = '[' + ';'.join(cf(v) for v in case['yv']) + ']'
-    if case['coord'] == 'float':
-        xs = '[' + ';'.join(cf(v) for v in case['xv']) + ']'
-        return f'CaseF {xs} {ys} {cf(case["atolv"])} {cz(case["min_n"])} {qs} {ot}'
-    xs = '[' + ';'.join(cz(v) for v in case['xv']) + ']'
-    return f'CaseZ {xs} {ys} {cf(case["atolv"])} {cz(case["min_n"])} {qs} {ot}'
+    xs = '[' + ';'.join(cx(v) for v in case['xv']) + ']'
+    tail = f'{xs} {ys} {cf(case["atolv"])} {cz(case["min_n"])} {qs} {ot}'
+    if coord == 'float32':
+        return '32', f'Case32 {b32} {tail}'
+    if coord == 'float':
+        return ('32', f'CaseFv32 {tail}') if v32 else ('64', f'CaseF {tail}')
+    return ('32', f'CaseZv32 {tail}') if v32 else ('64', f'CaseZ {tail}')
 
 
 def describe(case, obs=None, full=False):
-    d = {k: case[k] for k in case if k not in ('xv', 'yv', 'fv')}
+    d = {k: case[k] for k in case if k not in ('xv', 'yv', 'fv', 'bins', 'payload', 'A', 'hist')}
+    if case.get('hist'):
+        d['history_step'] = {k: v for k, v in case['hist'].items() if k != 'payload'}
     if case['kind'] == 'phase':
         d['f'] = case['fv'] if full else case['fv'][:8]
         d['n'] = len(case['fv'])
-    else:
+    elif case['kind'] == 'collapse':
+        d['bins'] = case['bins'] if full else [b[:4] for b in case['bins'][:4]]
+    elif case['kind'] == 'plateau':
         d['n'] = len(case['xv'])
         d['x'] = case['xv'] if full else case['xv'][:6]
         d['y'] = case['yv'] if full else case['yv'][:6]
@@ -394,16 +705,42 @@ def describe(case, obs=None, full=False):
             d['impl'] = 'raises ' + obs['error']
         elif case['kind'] == 'phase':
             d['impl_kept_indices'] = [k[0] for k in obs['kept']][:40]
-        else:
+        elif case['kind'] == 'collapse':
+            d['impl_collapsed'] = obs.get('collapsed') if full else (obs.get('collapsed') or [])[:4]
+        elif case['kind'] == 'plateau':
             d['impl_bin_sizes'] = [len(b) for b in obs['bins']][:40]
             if full:
                 d['impl_collapsed'] = obs.get('collapsed')
     return d
 
 
+def annotate(c):
+    if c['kind'] == 'plateau':
+        sl = slopes_of(c)
+        ex = exact_flags(c)
+        c['qsame'] = ex is not None and ex == [abs(s) > c['atolv'] for s in sl]
+        c['n_at_tol'] = sum(1 for s in sl if abs(s) == c['atolv'])
+        c['n_within_1ulp'] = sum(1 for s in sl if math.isfinite(s) and
+                                 abs(s) in (math.nextafter(c['atolv'], math.inf), math.nextafter(c['atolv'], 0.0)))
+    elif c['kind'] == 'phase':
+        c['qsame'] = all(phase_float(f, c['refv'], c['rtolv']) == phase_exact(f, c['refv'], c['rtolv'])
+                         for f in c['fv'])
+    return c
+
+
+def kind_of(c):
+    k = c['kind'] + ('-' + c['coord'] if c['kind'] in ('plateau', 'collapse') else '')
+    if c.get('ydtype') == 'float32' or c.get('fdtype') == 'float32':
+        k += '-float32data'
+    if c.get('hist'):
+        k = 'history-' + k
+    return k
+
+
 def gen_cases(rng, tier):
-    n_pl = 800 if tier == 'quick' else 15000
-    n_ph = 300 if tier == 'quick' else 6000
+    n_pl = 640 if tier == 'quick' else 12000
+    n_ph = 240 if tier == 'quick' else 5000
+    n_hi = 75 if tier == 'quick' else 1500
     cases = [gen_plateau(rng, tier) for _ in range(n_pl)] + [gen_phase(rng) for _ in range(n_ph)]
     # a few fixed series: the shapes of the upstream tests and the documented corner cases
     fixed = [
@@ -415,86 +752,160 @@ def gen_cases(rng, tier):
          'atolv': math.nextafter(1.0, 0), 'min_n': 2, 'nice': True, 'atol_how': 'one-ulp-below-a-slope'},
         {'kind': 'plateau', 'coord': 'int', 'ydtype': 'int64', 'xv': [0, 1, 2, 3, 4, 5], 'yv': [3.0, 6, 1, 2, 3, 2],
          'atolv': 0.1, 'min_n': 2, 'nice': True, 'atol_how': 'fixed'},
+        {'kind': 'plateau', 'coord': 'float32', 'ydtype': 'float32', 'xv': [r32(0.1), 1.5, 2.5, 16777216.0],
+         'yv': [1.0, 1.0, r32(1.1), 7.0], 'atolv': 0.5, 'min_n': 1, 'nice': True, 'atol_how': 'fixed'},
         {'kind': 'phase', 'fv': [14., 28., 7., 14.000001, 0., -0.0, -14., 21., 4.6666666667, 13.9999999, 1e12, 1e-12],
          'refv': 14.0, 'rtolv': 1e-6},
     ]
-    cases = fixed + cases
+    cases = fixed + cases + [gen_history(rng) for _ in range(n_hi)]
     for c in cases:
-        if c['kind'] == 'plateau':
-            sl = slopes_of(c)
-            ex = exact_flags(c)
-            c['qsame'] = ex is not None and ex == [abs(s) > c['atolv'] for s in sl]
-            c['n_at_tol'] = sum(1 for s in sl if abs(s) == c['atolv'])
-            c['n_within_1ulp'] = sum(1 for s in sl if math.isfinite(s) and
-                                     abs(s) in (math.nextafter(c['atolv'], math.inf), math.nextafter(c['atolv'], 0.0)))
-        else:
-            c['qsame'] = all(phase_float(f, c['refv'], c['rtolv']) == phase_exact(f, c['refv'], c['rtolv'])
-                             for f in c['fv'])
+        annotate(c)
     return cases
+
+
+def run_cases(ctx, cases):
+    """run the harness; returns (flat list of (case, observation) with the calls of every history flattened, raw result)"""
+    res = ctx.run_impl(HARNESS, {'cases': [payload_of(c) for c in cases]})
+    flat = []
+    for i, (c, o) in enumerate(zip(cases, res['cases'])):
+        if c['kind'] != 'history':
+            flat.append((c, o))
+            continue
+        for fc, fo in flatten_history(c['payload'], o, i):
+            fc['hist']['payload'] = c['payload']
+            flat.append((annotate(fc), fo))
+    return flat, res
+
+
+def replay_obj(c, o):
+    if c.get('hist'):
+        h = c['hist']
+        return {'case': describe(c, o, True), 'payload': h['payload'], 'step': h['step'],
+                'history_steps_before': h['payload']['steps'][:h['step'] + 1]}
+    return {'case': describe(c, o, True), 'payload': payload_of(c)}
+
+
+def hist_note(c):
+    if not c.get('hist'):
+        return ''
+    h = c['hist']
+    ops = [f"{s['op']}{'/' + s['how'] if 'how' in s else ''}(obj{s['obj']})" for s in h['payload']['steps'][:h['step'] + 1]]
+    return f' [call history on long-lived objects: {" -> ".join(ops)}]'
 
 
 def correspondence(ctx):
     rng = random.Random(ctx.seed)
     cases = gen_cases(rng, ctx.tier)
-    res = ctx.run_impl(HARNESS, {'cases': [payload_of(c) for c in cases]})
-    obs = res['cases']
-    terms, idx = [], []
-    for i, (c, o) in enumerate(zip(cases, obs)):
-        kind = c['kind'] + ('-' + c['coord'] if c['kind'] == 'plateau' else '')
-        if c['kind'] == 'plateau' and 'error' not in o:
+    flat, res = run_cases(ctx, cases)
+    groups = {'64': ([], []), '32': ([], [])}
+    for i, (c, o) in enumerate(flat):
+        kind = kind_of(c)
+        if o.get('fresh_same') is False:
+            ctx.violation(f'{kind}:differs-from-fresh-copy',
+                          f'{kind}: the call on a long-lived object answers differently from the same call on a fresh deep copy '
+                          f'of its current content{hist_note(c)}: {describe(c, o)}; on the copy: {str(o.get("fresh"))[:300]}',
+                          replay_obj(c, o))
+        if o.get('input_unchanged') is False:
+            ctx.violation(f'{kind}:input-modified', f'{kind}: the call modified its argument{hist_note(c)}: {describe(c, o)}',
+                          replay_obj(c, o))
+        if c['kind'] in ('plateau', 'collapse') and 'error' not in o:
             if isinstance(o['collapsed'], dict):
                 ctx.violation(f'{kind}:collapse-raises', f'collapse_plateaus raises {o["collapsed"]["error"]} on the '
-                              f'result of find_plateaus: {describe(c, o)}', {'case': describe(c, o, True), 'payload': payload_of(c)})
+                              f'result of find_plateaus{hist_note(c)}: {describe(c, o)}', replay_obj(c, o))
                 continue
-            if not o.get('input_unchanged', True):
-                ctx.violation(f'{kind}:input-modified', f'find_plateaus modified its input: {describe(c, o)}',
-                              {'case': describe(c, o, True), 'payload': payload_of(c)})
-            if o['plateau_coord'] != list(range(len(o['bins']))):
+            if c['kind'] == 'plateau' and o['plateau_coord'] != list(range(len(o['bins']))):
                 ctx.violation(f'{kind}:plateau-coord', f'plateau coordinate is not 0..k-1: {o["plateau_coord"][:10]}',
-                              {'case': describe(c, o, True), 'payload': payload_of(c)})
+                              replay_obj(c, o))
         if c['kind'] == 'phase' and 'error' in o:
-            ctx.violation('phase:raises', f'filter_in_phase raises {o["error"]}: {describe(c, o)}',
-                          {'case': describe(c, o, True), 'payload': payload_of(c)})
+            ctx.violation(f'{kind}:raises', f'filter_in_phase raises {o["error"]}{hist_note(c)}: {describe(c, o)}',
+                          replay_obj(c, o))
             continue
-        terms.append(case_term(c, o))
-        idx.append(i)
-    header = ('From Coq Require Import List ZArith QArith String PrimFloat.\n'
-              'From Verif.Sem Require Import Corr.\nFrom Verif.C19 Require Import Carrier Model.\n'
-              'From Run Require Import Corr.\nImport ListNotations.\nOpen Scope float_scope.\n')
-    fails, errors = ctx.coq_eval_shards(header, terms, lambda k: 'Eval vm_compute in (report (map check cases)).\n',
-                                        shard=25 if ctx.tier == 'quick' else 60)
-    for name, e in errors:
-        ctx.violation('corr-shard-error', f'correspondence shard {name} did not evaluate: {e[:300]}',
-                      {'shard': name, 'error': e}, found_input=False)
-    for j, why in sorted(fails.items()):
-        c, o = cases[idx[j]], obs[idx[j]]
-        kind = c['kind'] + ('-' + c['coord'] if c['kind'] == 'plateau' else '')
-        pv = property_violations(c, o)
-        ctx.violation(f'{kind}:{why}',
-                      f'{kind}: implementation differs from the model ({why}); property check: {pv or "no difference seen by the python spec"}; {describe(c, o)}',
-                      {'case': describe(c, o, True), 'payload': payload_of(c), 'reason': why, 'property_check': pv})
+        g, t = case_term(c, o)
+        groups[g][0].append(t)
+        groups[g][1].append(i)
+    head = ('From Coq Require Import List ZArith QArith String PrimFloat.\n'
+            'From Verif.Sem Require Import Corr.\nFrom Verif.C19 Require Import Carrier Model.\n')
+    header = {'64': head + 'From Run Require Import Corr.\nImport ListNotations.\nOpen Scope float_scope.\n',
+              '32': head + 'From Verif.C19 Require Import Carrier32.\nFrom Run Require Import Corr Corr32.\n'
+                           'Import ListNotations.\nOpen Scope float_scope.\n'}
+    fn = {'64': 'check', '32': 'check32'}
+    n_fail = 0
+    import threading
+    out = {}
+
+    def evaluate(g):
+        out[g] = ctx.coq_eval_shards(header[g], groups[g][0],
+                                     lambda k, g=g: f'Eval vm_compute in (report (map {fn[g]} cases)).\n',
+                                     shard=25 if ctx.tier == 'quick' else 60, prefix='cases' + g)
+    th = [threading.Thread(target=evaluate, args=(g,)) for g in ('64', '32') if groups[g][0]]
+    for t in th:
+        t.start()
+    for t in th:
+        t.join()
+    for g in ('64', '32'):
+        if g not in out:
+            continue
+        fails, errors = out[g]
+        idx = groups[g][1]
+        for name, e in errors:
+            ctx.violation('corr-shard-error', f'correspondence shard {name} did not evaluate: {e[:300]}',
+                          {'shard': name, 'error': e}, found_input=False)
+        n_fail += len(fails)
+        for j, why in sorted(fails.items()):
+            c, o = flat[idx[j]]
+            kind = kind_of(c)
+            pv = property_violations(c, o)
+            ro = replay_obj(c, o)
+            ro.update({'reason': why, 'property_check': pv})
+            ctx.violation(f'{kind}:{why}',
+                          f'{kind}: implementation differs from the model ({why}){hist_note(c)}; property check: '
+                          f'{pv or "no difference seen by the python spec"}; {describe(c, o)}', ro)
     # coverage
-    pl = [(c, o) for c, o in zip(cases, obs) if c['kind'] == 'plateau']
-    ph = [(c, o) for c, o in zip(cases, obs) if c['kind'] == 'phase']
+    pl = [(c, o) for c, o in flat if c['kind'] == 'plateau']
+    ph = [(c, o) for c, o in flat if c['kind'] == 'phase']
+    co = [(c, o) for c, o in flat if c['kind'] == 'collapse']
+    hists = [c for c in cases if c['kind'] == 'history']
+    hsteps = [s for h in hists for s in h['payload']['steps']]
     returned = [(c, o) for c, o in pl if 'error' not in o]
-    nontrivial = {repr(payload_of(c)) for c, o in returned if len(o['bins']) >= 1}
-    nontrivial |= {repr(payload_of(c)) for c, o in ph if 'kept' in o and 0 < len(o['kept']) < len(c['fv'])}
+    nontrivial = {repr((payload_of(c) if not c.get('hist') else (c['hist']['history'], c['hist']['step'])))
+                  for c, o in returned if len(o['bins']) >= 1}
+    nontrivial |= {repr((payload_of(c) if not c.get('hist') else (c['hist']['history'], c['hist']['step'])))
+                   for c, o in ph if 'kept' in o and 0 < len(o['kept']) < len(c['fv'])}
+    nontrivial |= {repr((c['hist']['history'], c['hist']['step'])) for c, o in co if len(c['bins']) >= 1}
     sizes = sorted(len(c['xv']) for c, _ in pl)
+
+    def count(seq, key):
+        d = {}
+        for v in seq:
+            d[key(v)] = d.get(key(v), 0) + 1
+        return dict(sorted(d.items()))
     ctx.coverage.update({
-        'evaluations': len(terms),
+        'evaluations': len(groups['64'][0]) + len(groups['32'][0]),
         'distinct_nontrivial': len(nontrivial),
-        'rule': 'random.Random(seed): plateau series of 2..500 points (mostly 5..60), non-uniform ascending float64 / int64 / '
-                'datetime64[ns] coordinates (5% of float series with repeated coordinates), piecewise-constant levels + noise, '
+        'rule': 'random.Random(seed): plateau series of 2..500 points (mostly 5..60), non-uniform ascending float64 / float32 / int64 / '
+                'datetime64[ns] coordinates (5% of float series with repeated coordinates), data float64 / float32 (60% of the '
+                'float32-coordinate series, ~13% of the others) / int64, piecewise-constant levels + noise, '
                 'steps at (1 +- 1e-6) x tolerance, ramps (drift guard), 30% on dyadic grids (exact ties); the tolerance is the '
                 'nominal one (30%) or |an actual slope| (42%: a slope EXACTLY at atol) or one ulp above/below it (28%); '
-                'min_n_points 1..n; in-phase lists of 1..60 frequencies: n*ref*(1+delta), ref/(n+delta) with '
+                'min_n_points 1..n; in-phase lists of 1..60 frequencies (float64 / float32 / int64): n*ref*(1+delta), ref/(n+delta) with '
                 'delta in {0, +-0.5, +-0.99, +-1, +-1.01, +-2} x rtol, n in -3..25 incl. 0, +-0, ties of the rounding, '
-                'huge/tiny, random; 25% in exact dyadic arithmetic.  non-trivial = find_plateaus returned >= 1 plateau, '
-                'or filter_in_phase kept some but not all elements; distinct = distinct inputs',
-        'plateau_cases': len(pl), 'phase_cases': len(ph),
+                'huge/tiny, random; 25% in exact dyadic arithmetic.  Call histories: 1..3 long-lived objects (series of 3..28 '
+                'points, 20% frequency arrays), 4..9 steps + closing calls: find_plateaus / filter_in_phase on the SAME object '
+                '(55% the object of the previous step, else any: interleaving), in-place updates between the calls '
+                '(da.values[a:b]=, da.data.values[a:b]=, da.data=, da.coords[t]=, da.coords[t].values[a:]=), in-place updates of the '
+                'returned plateau array (bins.data*=2, bins.coords[t]+=c, single event value / coordinate, also out of order) '
+                'followed by collapse_plateaus on the same array; every call is one evaluation on the content read back just '
+                'before the call and is repeated afterwards on a deep copy taken at that moment.  '
+                'non-trivial = find_plateaus returned >= 1 plateau, or filter_in_phase kept some but not all elements, or '
+                'collapse of >= 1 plateau; distinct = distinct inputs / history steps',
+        'plateau_cases': len(pl), 'phase_cases': len(ph), 'collapse_only_cases': len(co),
         'plateau_returned': len(returned), 'plateau_raised_RuntimeError': sum(1 for _, o in pl if o.get('error') == 'RuntimeError'),
         'plateau_other_errors': sorted({o['error'] for _, o in pl if 'error' in o and o['error'] != 'RuntimeError'}),
-        'coord_kinds': {k: sum(1 for c, _ in pl if c['coord'] == k) for k in ('float', 'int', 'datetime')},
+        'coord_kinds': {k: sum(1 for c, _ in pl if c['coord'] == k) for k in ('float', 'float32', 'int', 'datetime')},
+        'data_dtypes': count(pl, lambda co_: co_[0]['ydtype']),
+        'float32_coordinate_plateaus_collapsed': sum(len(o['bins']) for c, o in returned if c['coord'] == 'float32')
+                                                 + sum(len(c['bins']) for c, _ in co if c['coord'] == 'float32'),
+        'phase_dtypes': count(ph, lambda co_: co_[0].get('fdtype', 'float64')),
         'int64_data': sum(1 for c, _ in pl if c['ydtype'] == 'int64'),
         'series_length': {'min': sizes[0], 'median': sizes[len(sizes) // 2], 'max': sizes[-1]},
         'cases_with_a_slope_exactly_at_atol': sum(1 for c, _ in pl if c['n_at_tol'] > 0),
@@ -507,26 +918,41 @@ def correspondence(ctx):
         'phase_elements': sum(len(c['fv']) for c, _ in ph),
         'phase_kept': sum(len(o.get('kept', [])) for _, o in ph),
         'phase_cases_float_vs_exact_differ': sum(1 for c, _ in ph if not c['qsame']),
-        'disagreements': len(fails),
-        'samples': [describe(c, o) for c, o in (pl[:1] + pl[5:7] + ph[:1] + ph[-1:])],
+        'histories': len(hists),
+        'history_steps': count(hsteps, lambda s: s['op'] + ('/' + s['how'] if 'how' in s else '')),
+        'history_calls_evaluated': sum(1 for c, _ in flat if c.get('hist')),
+        'history_calls_on_an_object_updated_since_its_previous_call': sum(
+            1 for h in hists for i, s in enumerate(h['payload']['steps'])
+            if s['op'] in ('find', 'phase', 'collapse') and any(
+                t['obj'] == s['obj'] and t['op'] in ('set', 'pset') for t in h['payload']['steps'][:i])),
+        'history_calls_compared_with_fresh_copy': sum(1 for c, o in flat if c.get('hist') and 'fresh_same' in o),
+        'coq_groups': {g: len(groups[g][0]) for g in groups},
+        'disagreements': n_fail,
+        'samples': [describe(c, o) for c, o in (pl[:1] + pl[6:8] + ph[:1] + ph[-1:] + co[:1]
+                                                 + [x for x in pl if x[0]['coord'] == 'float32'][:1])],
         'scipp_version': res.get('scipp'),
     })
 
 
 def search(ctx, broken):
     """an obligation broke: evaluate the PROPERTY STATEMENT (python run-length / interval / nearest-integer
-    spec above, no Coq model involved) on the implementation over a fresh set of series"""
-    rng = random.Random(ctx.seed + 1)
-    cases = gen_cases(rng, 'quick')
-    res = ctx.run_impl(HARNESS, {'cases': [payload_of(c) for c in cases]})
+    spec above, no Coq model involved) on the implementation over a fresh set of series and call histories;
+    every call of a history is judged on the content its argument has at that moment"""
     found = []
-    for c, o in zip(cases, res['cases']):
-        pv = property_violations(c, o)
-        if pv:
-            kind = c['kind'] + ('-' + c['coord'] if c['kind'] == 'plateau' else '')
-            ctx.violation(f'{kind}:property', f'{kind}: {pv[0]}; {describe(c, o)}',
-                          {'case': describe(c, o, True), 'payload': payload_of(c), 'property_check': pv})
-            found.append(pv)
+    for attempt in range(2):
+        rng = random.Random(ctx.seed + 1 + 7919 * attempt)
+        cases = gen_cases(rng, 'quick')
+        flat, _ = run_cases(ctx, cases)
+        for c, o in flat:
+            pv = property_violations(c, o)
+            if pv:
+                kind = kind_of(c)
+                ro = replay_obj(c, o)
+                ro['property_check'] = pv
+                ctx.violation(f'{kind}:property', f'{kind}: {pv[0]}{hist_note(c)}; {describe(c, o)}', ro)
+                found.append(pv)
+        if found:
+            break
     return found
 
 
@@ -539,29 +965,42 @@ def replay(ctx, obj):
         return 0
     res = ctx.run_impl(HARNESS, {'cases': [payload]})
     o = res['cases'][0]
+    if payload['kind'] == 'history':
+        rc = 0
+        print('objects:', json.dumps(payload['objects'])[:2000])
+        fl = {c['hist']['step']: (c, ob) for c, ob in flatten_history(payload, o, 0)}
+        for si, st in enumerate(payload['steps']):
+            print(f'step {si}:', json.dumps(st)[:400])
+            if si in fl:
+                c, ob = fl[si]
+                annotate(c)
+                print('   content at the call:', describe(c, ob, True))
+                pv = property_violations(c, ob)
+                print('   property check:', pv or 'ok')
+                rc = rc or (1 if pv else 0)
+        return rc
     if payload['kind'] == 'phase':
         c = {'kind': 'phase', 'fv': [float.fromhex(v) for v in payload['f']], 'refv': float.fromhex(payload['ref']),
-             'rtolv': float.fromhex(payload['rtol'])}
-        print('reference', c['refv'], 'rtol', c['rtolv'])
+             'rtolv': float.fromhex(payload['rtol']), 'fdtype': payload.get('fdtype', 'float64')}
+        print('reference', c['refv'], 'rtol', c['rtolv'], 'dtype', c['fdtype'])
         print('frequencies', c['fv'])
         print('observed kept indices :', [k[0] for k in o.get('kept', [])] if 'kept' in o else o)
         print('required kept indices :', [i for i, f in enumerate(c['fv']) if phase_float(f, c['refv'], c['rtolv'])])
     else:
         c = {'kind': 'plateau', 'coord': payload['coord'], 'ydtype': payload['ydtype'],
-             'xv': [float.fromhex(v) for v in payload['x']] if payload['coord'] == 'float' else payload['x'],
+             'xv': [unhx(payload['coord'], v) for v in payload['x']],
              'yv': [float.fromhex(v) for v in payload['y']], 'atolv': float.fromhex(payload['atol']),
              'min_n': payload['min_n']}
         print('x =', c['xv'])
         print('y =', c['yv'])
-        print('atol =', repr(c['atolv']), 'min_n_points =', c['min_n'], 'coord dtype =', c['coord'])
+        print('atol =', repr(c['atolv']), 'min_n_points =', c['min_n'], 'coord dtype =', c['coord'], 'data dtype =', c['ydtype'])
         print('slopes =', slopes_of(c))
         print('required plateaus (first,last):', spec_runs(c))
         if 'error' in o:
             print('observed: raises', o['error'], o.get('msg'))
         else:
-            pos, runs = 0, []
             print('observed bins (sizes)        :', [len(b) for b in o['bins']])
-            print('observed bins (x of points)  :', [[p[0] if c['coord'] != 'float' else float.fromhex(p[0]) for p in b] for b in o['bins']][:20])
+            print('observed bins (x of points)  :', [[unhx(c['coord'], p[0]) for p in b] for b in o['bins']][:20])
             print('observed collapsed (mean, low, high):', o.get('collapsed'))
     pv = property_violations(c, o)
     print('property check:', pv or 'no violation on this input')
